@@ -168,6 +168,22 @@ TKeyRejectDup(k, via) ==
   /\ pc = "building" /\ Top.kind = "map" /\ Top.st = "midKey" /\ FT.k \in {"struct", "map"}
   /\ KeyRejectDup(k, via) /\ UNCHANGED tstack /\ Spend(IF via = "keynode" THEN 2 ELSE 1)
 
+\* the named deviation of Assembler.tla (DeferredDupNext): a typed MAP refuses a repeated key that came through the key
+\* assembler only through the assembler it hands out for the value.  Both styles are explored; TEmit says which one a
+\* behaviour contains, and each engine is replayed on its own style only.
+TKeyAssignDupUnnoticed(k, via) ==
+  /\ pc = "building" /\ Top.kind = "map" /\ Top.st = "midKey" /\ FT.k = "map"
+  /\ KeyAssignDupUnnoticed(k, via) /\ UNCHANGED tstack /\ Spend(IF via = "keynode" THEN 2 ELSE 1)
+
+TAssembleValueDup == AssembleValueDup /\ UNCHANGED tstack /\ Keep
+
+TRefusedDup ==
+  /\ pc = "building" /\ Top.kind = "map" /\ Top.st = "midValueDup"
+  /\ UNCHANGED tstack /\ Keep
+  /\ \/ \E s \in CanonVals(Pos) : RefusedDup("AssignScalar", s, "")
+     \/ \E v \in Pick1(TreeCands[Pos.ty]) : RefusedDup("AssignNode", v, "basic")
+     \/ \E kind \in KindsAt(Pos.ty) \cap RecursiveKinds : RefusedDup(IF kind = "map" THEN "BeginMap" ELSE "BeginList", Nil, "")
+
 TKeyWrongKind ==
   /\ pc = "building" /\ Top.kind = "map" /\ Top.st = "midKey" /\ Top.ks = <<>>
   /\ KeyWrongKind(Scalar("int", <<0, 9>>)) /\ UNCHANGED tstack /\ Spend(1)
@@ -220,7 +236,8 @@ TBuild == Build /\ UNCHANGED tstack /\ Keep
 TNext ==
   \/ \E kind \in RecursiveKinds : TBegin(kind) \/ TWrongKindBegin(kind)
   \/ TAssembleKey \/ TAssembleValue \/ TListAssembleValue \/ TFinish \/ TBuild \/ TKeyWrongKind
-  \/ \E k \in TKeys, via \in {"keyvalue", "keynode"} : TKeyAssign(k, via) \/ TKeyRejectDup(k, via)
+  \/ \E k \in TKeys, via \in {"keyvalue", "keynode"} : TKeyAssign(k, via) \/ TKeyRejectDup(k, via) \/ TKeyAssignDupUnnoticed(k, via)
+  \/ TAssembleValueDup \/ TRefusedDup
   \/ \E k \in TKeys : TAssembleEntry(k) \/ TEntryRejectDup(k)
   \/ \E s \in TScalars : TAssignScalar(s)
   \/ \E s \in {Scalar("int", <<0, 9>>), Scalar("string", <<113>>), Scalar("bool", <<1>>), NullV} : TWrongKindScalar(s)
@@ -231,7 +248,7 @@ TSpec == TInit /\ [][TNext]_tvars
 ------------------------------------------------------------------------------
 \* B3: every behaviour of the typed machine is a behaviour of the generic one (checked as a property),
 \* and its invariants hold here too
-RefinesGeneric == [][Next \/ pc' = "dead"]_vars
+RefinesGeneric == [][Next \/ DeferredDupNext \/ pc' = "dead"]_vars
 
 \* B3: the step-level notion of a legal sequence agrees with the whole-input function of Schema.tla
 LegalIsConforming == pc \in {"finished", "built"} => From(T0, cur).ok
@@ -241,9 +258,15 @@ BuiltViewsConsistent ==
   pc = "built" => LET tv == From(T0, cur).v
                   IN FromRepr(T0, ReprOf(T0, tv)) = Res(TRUE, tv) /\ FromType(T0, Feed(T0, tv)) = Res(TRUE, tv)
 
+\* which style of refusing a repeated key in a typed-map frame the behaviour contains
+KeyCalls == {"KeyAssignString", "KeyAssignNode"}
+EarlyMapDup == \E i \in DOMAIN hist : hist[i].r = "repeated_key" /\ hist[i].a \in KeyCalls /\ thist[i] = "map"
+LateMapDup == \E i \in DOMAIN hist : hist[i].r = "repeated_key" /\ hist[i].a \notin KeyCalls \cup {"AssembleEntry"}
+
 TEmit ==
   Complete =>
     LET r == IF pc = "built" THEN From(T0, cur) ELSE BadW("dead")
     IN PrintT(ToJson([ty |-> T0, level |-> Level, steps |-> hist, ft |-> thist, pc |-> pc, ok |-> r.ok, tv |-> r.v,
+                      early |-> EarlyMapDup, late |-> LateMapDup,
                       repr |-> IF r.ok THEN ReprOf(T0, r.v) ELSE Nil]))
 =============================================================================
